@@ -99,3 +99,4 @@ var errInvalidPattern = errors.New("malformed pattern")
 var errUnfinishedCapture = errors.New("unfinished capture")
 var errInvalidPatternCapture = errors.New("invalid pattern capture")
 var errPatternTooComplex = errors.New("pattern too complex")
+var errMissingSetAfterFrontier = errors.New("missing '[' after '%f' in pattern")
